@@ -77,7 +77,7 @@ func genInfos(r *hx.Rng) []info {
 	capClass := r.Intn(4) // 0 tiny ties, 1 small, 2 mixed with unlimited, 3 large
 	zeroCaps := r.Chance(12) // out-of-domain stream: exhausted nodes (capacity 0) are never offered by the resource manager
 	cntMax := hx.Pick(r, 0, 1, 3, 6)
-	uClass := r.Intn(3)
+	uClass := r.Intn(4) // 3: finest grain — usages and rates a few units of 2^-20 apart (any tolerance in the comparison shows)
 	infos := make([]info, n)
 	for i := range infos {
 		var c int
@@ -102,9 +102,12 @@ func genInfos(r *hx.Rng) []info {
 		case 1:
 			u = int64(r.Intn(1024)) * fp / 1024
 			rt = int64(r.Range(0, 64)) * fp / 1024
-		default:
+		case 2:
 			u = int64(r.Intn(4096)) * fp / 256
 			rt = int64(r.Range(1, 1024)) * fp / 1024
+		default:
+			u = fp/2 + int64(r.Intn(8))
+			rt = int64(r.Range(1, 3))
 		}
 		infos[i] = info{N: fmt.Sprintf("n%02d", i), U: u, R: rt, Cap: c, Count: r.Intn(cntMax + 1)}
 	}
